@@ -31,6 +31,17 @@ class Frame:
         self.ret_place, self.ret_block, self.cont = ret_place, ret_block, cont
 
 
+class Bytes:
+    """A byte-string constant (e.g. the compiled template of format!)."""
+    immutable = True
+
+    def __init__(self, b):
+        self.b = b
+
+    def __repr__(self):
+        return "Bytes(%r)" % (self.b,)
+
+
 class FnItem:
     """A function item / closure used as a value."""
     immutable = True
@@ -385,7 +396,11 @@ class Executor:
         if t == "()":
             return UNIT
         if t.startswith('b"'):
-            return Str(sym=I(-abs(hash(t)) % 1000003 - 5000))  # byte-string constant (format templates): opaque
+            import ast
+            try:
+                return Bytes(ast.literal_eval(t))
+            except Exception:
+                raise Unsupported("byte string constant " + t)
         if t.startswith("fnitem "):
             return FnItem(t[7:])
         if t.startswith("ZeroSized: "):
